@@ -46,7 +46,7 @@ func addProp(d *propDef) {
 func init() {
 	addProp(&propDef{
 		ID: "C05", Check: "flow", Level: "fault_enumeration",
-		Rule: "every vector in {absent, returns, panics with a distinct error value, calls Exit(10+i)}^(2d+3) over the d+1 Befores, the Action (never absent) and the d+1 Afters of the chain app->c1->..->cd, for every depth d in the bound, crossed with the three error policies at d<=2; all vectors are distinct by construction (mixed-radix counter); non-trivial = at least one hook panics or exits",
+		Rule: "every vector in {absent, returns, panics with a distinct error value, calls Exit(10+i), dies of a genuine runtime error (shallow depths)}^(2d+3) over the d+1 Befores, the Action (never absent) and the d+1 Afters of the chain app->c1->..->cd, for every depth d in the bound, crossed with the three error policies at d<=2; all vectors are distinct by construction (mixed-radix counter); non-trivial = at least one hook panics or exits",
 		Assumptions: []string{"reference = 30-line model of the documented interceptor diagram (harness/ref/flow.go)"},
 	})
 }
@@ -58,7 +58,7 @@ func init() {
 	}
 	addProp(&propDef{
 		ID: "C01", Check: "lang", Level: "model_checking",
-		Rule:        "structural layer: for every grammar-derived spec up to the structural size bound, the automaton compiled by the library (read back state by state) is compared with the partial-derivative automaton of the spec's AST by BFS over the product of the two subset automata (states/transitions = product states/edges; decides language equality over abstract letters for words of unbounded length; a distinguishing word is concretised and must be reproduced on Cli.Run before it is reported); concrete layer (= traces validated against the implementation): all grammar-derived spec strings up to the size bound (size = leaves + `...` + bracket pairs; deduplicated through a set) x all argument vectors up to the length bound over the token alphabet (every documented spelling, positionals, '-', '--', undeclared and malformed tokens), plus per spec all words over the spec's own letters up to length 5/6 (model traces); each pair is run on a freshly built application through Cli.Run and judged by the reference; pairs are distinct by construction; non-trivial = the reference accepts, or some atom consumed a token before rejecting",
+		Rule:        "structural layer: for every grammar-derived spec up to the structural size bound, the automaton compiled by the library (read back state by state) is compared with the partial-derivative automaton of the spec's AST by BFS over the product of the two subset automata (states/transitions = product states/edges; decides language equality over abstract letters for words of unbounded length; a distinguishing word is concretised and must be reproduced on Cli.Run before it is reported); concrete layer (= traces validated against the implementation): all grammar-derived spec strings up to the size bound (size = leaves + `...` + bracket pairs; deduplicated through a set) x all argument vectors up to the length bound over the token alphabet (every documented spelling, positionals, '-', '--', undeclared and malformed tokens), plus per spec all words over the spec's own letters up to length 5/6 (8/9 when the spec has at most two letters) (model traces); each pair is run on a freshly built application through Cli.Run and judged by the reference; pairs are distinct by construction; non-trivial = the reference accepts, or some atom consumed a token before rejecting",
 		Assumptions: langAssume,
 		Budget:      [2]int{1200, 7200},
 	})
@@ -205,7 +205,7 @@ func init() {
 			{Name: "sched", Build: "instr", Params: "mode=sched"},
 			{Name: "race", Build: "race", Params: "mode=race", Shards: 1, Env: []string{"GOMAXPROCS=16"}},
 		},
-		Rule: "(a) histories: every ordered sequence of <= 3 of 11 application templates (chosen to collide: same spec text with different declarations, same option names, the same environment variable read with different values, a rejection, a help request under ExitOnError, hooks with Exit, nested repetitions, implicit spec, two rejections caused by unconvertible values with other containers already collected) is built-and-run in one fresh process and every outcome compared with the template's outcome alone in a fresh process; (b) interleavings: the library sources are instrumented (overlay) with a scheduling point at every function entry, every loop head and before/after every statement mentioning a package-level variable; 2 (thorough: 3) templates run as cooperative threads; all schedules up to the preemption bound are enumerated depth-first (dense pass: every point; focused pass: tagged points only, higher bound), every execution on fresh objects; oracle per execution: each thread ends exactly as it does alone under the same instrumentation (result, bound values, exit codes and the text that thread itself wrote to the output stream), and no package-level variable is written by one thread and touched by another (conflict monitor); states = scheduling points visited, transitions = executions (schedules) run; traces validated = schedules executed on the real code (all of them); (c) the same bodies free-running in 16 goroutines under -race; non-trivial = executions with at least one preemption, histories of length >= 2",
+		Rule: "(a) histories: every ordered sequence of <= 3 of 12 application templates (chosen to collide: same spec text with different declarations, same option names, the same environment variable read with different values, a rejection, a help request under ExitOnError, hooks with Exit, nested repetitions, implicit spec, two rejections caused by unconvertible values with other containers already collected) is built-and-run in one fresh process and every outcome compared with the template's outcome alone in a fresh process; (b) interleavings: the library sources are instrumented (overlay) with a scheduling point at every function entry, every loop head and before/after every statement mentioning a package-level variable; 2 (thorough: 3) templates run as cooperative threads; all schedules up to the preemption bound are enumerated depth-first (dense pass: every point; focused pass: tagged points only, higher bound), every execution on fresh objects; oracle per execution: each thread ends exactly as it does alone under the same instrumentation (result, bound values, exit codes and the text that thread itself wrote to the output stream), and no package-level variable is written by one thread and touched by another (conflict monitor); states = scheduling points visited, transitions = executions (schedules) run; traces validated = schedules executed on the real code (all of them); (c) the same bodies free-running in 16 goroutines under -race; non-trivial = executions with at least one preemption, histories of length >= 2",
 		Assumptions: []string{"interleavings are explored at the granularity of the inserted scheduling points; Go memory-model effects below that granularity are left to the free-running -race pass, which is not exhaustive", "a report of the race detector is taken as proof (no confirmation replay)", "concurrent applications share the package-level output stream by design: outputs are compared in histories only"},
 	})
 }
